@@ -137,4 +137,60 @@ void *memmove(void *dst, const void *src, size_t n)
     return dst;
 }
 #endif
+/* ---- exact libc comparison / conversion functions for tier B units (run under --unwind) ----------------
+ * env.h's strcmp family returns an arbitrary int and strtol an arbitrary long: fine for safety, useless for
+ * the RESULT of spiftool_version_compare.  Units that define VERIF_OWN_STRCMP (drops env.h's family) and
+ * VERIF_STRHELP_EXACT_LIBC get the plain byte loops below (C standard / POSIX semantics, "C" locale).
+ * strtol cannot be switched off in env.h, so the identifier is re-bound to vstr_strtol (decimal digits
+ * only, saturating at LONG_MAX as the man page says) - stated deviation, environment function only. */
+#ifdef VERIF_STRHELP_EXACT_LIBC
+static int vstr_lc(int c) { return (c >= 'A' && c <= 'Z') ? c + 32 : c; }
+static int vstr_uc(char c) { int u = c; if (u < 0) u += 256; return u; }       /* value as unsigned char */
+int strcmp(const char *a, const char *b)
+{
+    size_t i = 0;
+    while (a[i] && a[i] == b[i]) i++;
+    return vstr_uc(a[i]) - vstr_uc(b[i]);
+}
+int strncmp(const char *a, const char *b, size_t n)
+{
+    size_t i = 0;
+    if (n == 0) return 0;
+    while (i + 1 < n && a[i] && a[i] == b[i]) i++;
+    return vstr_uc(a[i]) - vstr_uc(b[i]);
+}
+/* VERIF_STRHELP_CASECMP_PREFIX=N: exact on the first N positions, ARBITRARY result when the first N bytes
+ * are equal and non-NUL (over-approximation; used where the arguments may be 128 bytes of garbage, which an
+ * exact loop would have to follow to the end) */
+int strcasecmp(const char *a, const char *b)
+{
+    size_t i = 0;
+# ifdef VERIF_STRHELP_CASECMP_PREFIX
+    while (i < VERIF_STRHELP_CASECMP_PREFIX && a[i] && vstr_lc(vstr_uc(a[i])) == vstr_lc(vstr_uc(b[i]))) i++;
+    if (i == VERIF_STRHELP_CASECMP_PREFIX) return nondet_int();
+# else
+    while (a[i] && vstr_lc(vstr_uc(a[i])) == vstr_lc(vstr_uc(b[i]))) i++;
+# endif
+    return vstr_lc(vstr_uc(a[i])) - vstr_lc(vstr_uc(b[i]));
+}
+int strncasecmp(const char *a, const char *b, size_t n)
+{
+    size_t i = 0;
+    if (n == 0) return 0;
+    while (i + 1 < n && a[i] && vstr_lc(vstr_uc(a[i])) == vstr_lc(vstr_uc(b[i]))) i++;
+    return vstr_lc(vstr_uc(a[i])) - vstr_lc(vstr_uc(b[i]));
+}
+long vstr_strtol(const char *s, char **end, int base)
+{
+    long v = 0; size_t i = 0;
+    __CPROVER_assert(base == 10 && end == NULL, "vstr_strtol: only the form used by version_compare is modelled");
+    while (s[i] >= '0' && s[i] <= '9') {
+        int d = s[i] - '0';
+        if (v > (LONG_MAX - d) / 10) v = LONG_MAX; else v = v * 10 + d;
+        i++;
+    }
+    return v;
+}
+# define strtol vstr_strtol
+#endif
 #endif
